@@ -20,9 +20,15 @@
    onUpstreamEventStats(close event): cluster.UpstreamConnectionActive-- ; if an upstream host is set { host.UpstreamConnectionActive-- }
    resource: Increase/Decrease are no-ops when max == 0; CanCreate = max == 0 || cur < 0 || cur < max.
 
+   (the listing above is the shape BEFORE the repair fix: "close event before Connect returns"; since the repair
+   SetUpstreamHost, Increase and the two UpstreamConnectionActive++ stand at [B], their inverses and
+   SetUpstreamHost(nil) at [E], and [T] does not finalize.)
    WHERE the accounting sits relative to Connect is read from the source on every run (Gen/RelayAcctSrc.v):
      acct_before       Increase + SetUpstreamHost stand at [B] (before Connect) instead of [A]
+     gauges_before     the two UpstreamConnectionActive++ stand at [B] instead of [A]
      err_decreases     a Decrease stands at [E]
+     err_undoes_gauges the two UpstreamConnectionActive-- stand at [E]
+     err_unsets_host   SetUpstreamHost(nil) stands at [E]
      timeout_finalizes the ConnectTimeout case calls finalize at [T]
    Connect() starts the upstream read loop before it returns, so a close event of the upstream connection can be
    handled (on the read loop goroutine) BEFORE the accounting at [A]: outcome ConnOkEarly.
@@ -33,7 +39,8 @@ From Coq Require Import List ZArith Bool.
 Import ListNotations.
 Open Scope Z_scope.
 
-Record sw := mkSw { acct_before : bool; err_decreases : bool; timeout_finalizes : bool }.
+Record sw := mkSw { acct_before : bool; gauges_before : bool; err_decreases : bool; err_undoes_gauges : bool;
+                    err_unsets_host : bool; timeout_finalizes : bool }.
 
 (* one Connect attempt *)
 Inductive outcome :=
@@ -80,31 +87,42 @@ Definition can_create (c : cfg) (cur : Z) : bool := (maxc c =? 0) || (cur <? 0) 
 Definition close_d (s : sess) : sess := mkS Done (hs s) (h_res s) (h_host s) (h_clu s) (h_down s - 1).
 
 (* the session-level effect of one Connect attempt, Dialing (S k) *)
+Definition set_res (s : sess) (v : Z) : sess := mkS (ph s) (hs s) v (h_host s) (h_clu s) (h_down s).
+Definition set_hs (s : sess) (b : bool) : sess := mkS (ph s) b (h_res s) (h_host s) (h_clu s) (h_down s).
+Definition add_gauges (s : sess) (d : Z) : sess := mkS (ph s) (hs s) (h_res s) (h_host s + d) (h_clu s + d) (h_down s).
+Definition set_ph (s : sess) (p : phase) : sess := mkS p (hs s) (h_res s) (h_host s) (h_clu s) (h_down s).
+
+(* [E]: what the Connect error branch gives back *)
+Definition undo (w : sw) (c : cfg) (s : sess) : sess :=
+  let s := if err_decreases w then set_res s (bump c (h_res s) (-1)) else s in
+  let s := if err_undoes_gauges w then add_gauges s (-1) else s in
+  if err_unsets_host w then set_hs s false else s.
+
 Definition dial (w : sw) (c : cfg) (s : sess) (k : nat) (o : outcome) : sess :=
-  let next (s : sess) := match k with O => close_d s | S _ => mkS (Dialing k) (hs s) (h_res s) (h_host s) (h_clu s) (h_down s) end in
+  let next (s : sess) := match k with O => close_d s | S _ => set_ph s (Dialing k) end in
   match o with
   | NoHost => next s
   | _ =>
     (* [B] *)
-    let s := if acct_before w then mkS (ph s) true (bump c (h_res s) 1) (h_host s) (h_clu s) (h_down s) else s in
+    let s := if acct_before w then set_res (set_hs s true) (bump c (h_res s) 1) else s in
+    let s := if gauges_before w then add_gauges s 1 else s in
     match o with
-    | Refused =>
-        let s := if err_decreases w then mkS (ph s) (hs s) (bump c (h_res s) (-1)) (h_host s) (h_clu s) (h_down s) else s in
-        next s
+    | Refused => next (undo w c s)
     | TimedOut =>
-        let s := if timeout_finalizes w && hs s then mkS (ph s) (hs s) (bump c (h_res s) (-1)) (h_host s) (h_clu s) (h_down s) else s in
-        let s := if err_decreases w then mkS (ph s) (hs s) (bump c (h_res s) (-1)) (h_host s) (h_clu s) (h_down s) else s in
-        next s
+        let s := if timeout_finalizes w && hs s then set_res s (bump c (h_res s) (-1)) else s in
+        next (undo w c s)
     | ConnOk =>
-        let s := if acct_before w then s else mkS (ph s) true (bump c (h_res s) 1) (h_host s) (h_clu s) (h_down s) in
-        mkS Live (hs s) (h_res s) (h_host s + 1) (h_clu s + 1) (h_down s)
+        let s := if acct_before w then s else set_res (set_hs s true) (bump c (h_res s) 1) in
+        let s := if gauges_before w then s else add_gauges s 1 in
+        set_ph s Live
     | ConnOkEarly =>
         (* the close event first: finalize, close D, event stats ... *)
         let s := mkS (ph s) (hs s) (if hs s then bump c (h_res s) (-1) else h_res s)
                      (if hs s then h_host s - 1 else h_host s) (h_clu s - 1) (h_down s - 1) in
         (* ... then the accounting at [A] *)
-        let s := if acct_before w then s else mkS (ph s) true (bump c (h_res s) 1) (h_host s) (h_clu s) (h_down s) in
-        mkS Done (hs s) (h_res s) (h_host s + 1) (h_clu s + 1) (h_down s)
+        let s := if acct_before w then s else set_res (set_hs s true) (bump c (h_res s) 1) in
+        let s := if gauges_before w then s else add_gauges s 1 in
+        set_ph s Done
     | NoHost => s
     end
   end.
@@ -139,7 +157,7 @@ Definition step (w : sw) (c : cfg) (g : gst) (e : event) : gst :=
               if can_create c (res g) then
                 match tries c with
                 | O => commit g i s (close_d s) 0
-                | S _ => commit g i s (mkS (Dialing (tries c)) (hs s) (h_res s) (h_host s) (h_clu s) (h_down s)) 0
+                | S _ => commit g i s (set_ph s (Dialing (tries c))) 0
                 end
               else commit g i s (close_d s) 1
           | _ => g
@@ -182,8 +200,9 @@ Fixpoint serial_from (w : sw) (c : cfg) (g : gst) (evs : list event) : bool :=
       (match e with Admit _ => count is_dialing (ss g) =? 0 | _ => true end) && serial_from w c (step w c g e) r
   end.
 
-(* the accounting as it stands in the tree this development was written against *)
-Definition sw_tree := mkSw false false true.
+(* the accounting before the repair (fix: close event before Connect returns) and after it *)
+Definition sw_old := mkSw false false false false false true.
+Definition sw_repaired := mkSw true true true true true false.
 
 (* --- correspondence case ---------------------------------------------------------------------------------- *)
 (* a history in groups; after each group the real counters were read: Connections().Cur(), the host's and the
